@@ -125,7 +125,7 @@ def check(prog, run):
     # non-ascending order; the PreGER split must honour the LISTED order (necessary condition, shared with C03)
     run.rule("R-perm-split", "PreGER reference/roving split takes the reference channels in the listed order and does not modify the index lists", 3)
     from .. import seqsig
-    seqsig.order_obligations(prog, run, "R-perm-split", which=("pre",))
+    seqsig.order_obligations(prog, run, "R-perm-split", which=("pre", "reflists"))
 
 
 def unit_norm(prog, run):
